@@ -114,8 +114,19 @@ class Check(object):
         recorded as a violation with key key_of(trace, idx, clauses).
         """
         rejected = []
-        for b0 in range(0, len(traces), batch):
-            chunk = traces[b0:b0 + batch]
+        # a batch is at most `batch` traces and at most ~10 MB of JSON (TLC holds the whole batch as one value: a
+        # 40 MB batch exhausted its heap and surfaced as a JSON parse error)
+        starts, size = [0], 0
+        for k, t in enumerate(traces):
+            n = len(json.dumps(t, separators=(",", ":"), default=str))
+            if k > starts[-1] and (k - starts[-1] >= batch or size + n > 10000000):
+                starts.append(k)
+                size = 0
+            size += n
+        for b0, b1 in zip(starts, starts[1:] + [len(traces)]):
+            chunk = traces[b0:b1]
+            if not chunk:
+                continue
             path = os.path.join(self.tmp, "traces-%s-%d.json" % (module, b0))
             tlcmod.write_json(path, chunk)
             e = {"TRACE_FILE": path}
